@@ -225,6 +225,30 @@ def _linen_part(fails):
           fails.append(dict(inputs=dict(api='linen', check='sibling and nested nn.jit layers draw at apply time', rngs='single key' if not isinstance(rngs, dict) else sorted(rngs), separator_fix=flag),
                             observed=f'{len(ks_j)} draws, {len(set(ks_j))} distinct keys: sibling jitted layers were handed the same key', violated='no-key-reuse'))
           return cases
+      # one scope drawing from several UN-SEEDED names next to 'params' draws and parameter initialisers: every draw its own key
+      cases += 1
+
+      class Fallbacks(nn.Module):
+        @nn.compact
+        def __call__(self):
+          got = []
+          self.param('w', lambda k: got.append(('init w', _kd(k))) or np.zeros(()))
+          for nm in ('dropout', 'noise', 'params', 'dropout', 'noise'):
+            got.append((nm, _kd(self.make_rng(nm))))
+          self.param('v', lambda k: got.append(('init v', _kd(k))) or np.zeros(()))
+          return got
+      for rngs in ({'params': jax.random.key(7)}, jax.random.key(7)):
+        (got, _) = Fallbacks().init_with_output(rngs)
+        ks = [k for _, k in got]
+        if len(set(ks)) != len(ks):
+          dup = sorted({a for (a, k) in got if ks.count(k) > 1})
+          fails.append(dict(inputs=dict(api='linen', check='un-seeded streams falling back to params, in one scope with params draws and initialisers', separator_fix=flag),
+                            observed=f'the same key was handed out for {dup}', violated='no-key-reuse'))
+          return cases
+        (again, _) = Fallbacks().init_with_output(rngs)
+        if again != got:
+          fails.append(dict(inputs=dict(api='linen', check='un-seeded streams falling back to params', separator_fix=flag), observed='same seed, other keys on a second run', violated='deterministic'))
+          return cases
       # parameter initialisers: keys are position-addressed and not shared
       cases += 1
 
@@ -324,6 +348,26 @@ def _nnx_part(fails):
   if after != ref_after or len({first, inner_draw, *after}) != 4:
     fails.append(dict(inputs=dict(api='nnx', check='split-restore', splits=1, squeeze=True), observed='after restore the stream does not resume the original stream (the split key is still installed, or a key is replayed)', violated='split-restore-resumes'))
     return cases
+  # copies of an Rngs (clone, split/merge, a saved state) have their OWN position: drawing from one moves no other
+  cases += 1
+  r0 = nnx.Rngs(params=0, dropout=1)
+  r0.dropout()
+  snap = nnx.state(r0)
+  cl = nnx.clone(r0)
+  gd, st = nnx.split(r0)
+  mg = nnx.merge(gd, st)
+  ref_seq = nnx.Rngs(params=0, dropout=1)
+  ref_seq.dropout()
+  want_seq = [_kd(ref_seq.dropout()) for _ in range(3)]
+  got_clone = [_kd(cl.dropout()) for _ in range(3)]
+  got_merged = [_kd(mg.dropout()) for _ in range(3)]
+  got_orig = [_kd(r0.dropout()) for _ in range(3)]
+  nnx.update(r0, snap)
+  got_restored = [_kd(r0.dropout()) for _ in range(3)]
+  for tag, got_seq in (('clone', got_clone), ('merge(split(rngs))', got_merged), ('the original after its copies were used', got_orig), ('the original after nnx.update with a state saved earlier', got_restored)):
+    if got_seq != want_seq:
+      fails.append(dict(inputs=dict(api='nnx', check='copies-have-own-position', object=tag), observed='the keys are not those of the same call sequence on a fresh Rngs with the same seeds (a copy shares the counter of the original, or a restored state does not rewind)', violated='deterministic'))
+      return cases
   # reseed restarts the stream: int and key seeds, used streams
   for seed_kind, used in itertools.product(('int', 'key', 'derived-key'), (0, 3)):
     cases += 1
